@@ -43,6 +43,8 @@ func run(args []string) {
 	fs.Var(&pats, "pkg", "package pattern (repeatable)")
 	fs.Var(&overlays, "overlay", "virtual=real file overlay (repeatable)")
 	fs.Var(&params, "param", "name=int harness parameter (repeatable)")
+	var stubs multi
+	fs.Var(&stubs, "stub", "full name of a function to replace by an empty body returning zero values (logging/formatting; recorded in the evidence; repeatable)")
 	harness := fs.String("harness", "^Verif", "regexp of harness function names")
 	workers := fs.Int("workers", 16, "parallel workers")
 	solver := fs.String("solver", "z3-new", "z3-new (5.1.0, default) | z3 (4.8.12) | cvc5 | cvc5-int")
@@ -101,7 +103,7 @@ func run(args []string) {
 		Harnesses []hres
 	}{LoadS: loadT.Seconds()}
 	cfg := gose.Config{Workers: *workers, SolverKind: *solver, FeasMs: *feas, ObligMs: *oblig, MaxSteps: *maxSteps,
-		MaxLoop: *maxLoop, MaxPaths: *maxPaths, Wall: *wall, Params: pm, ModelPerPath: *models > 0, ModelMax: *models, SpareCap: *spare, Trace: *trace, StopOnViol: *stopv}
+		MaxLoop: *maxLoop, MaxPaths: *maxPaths, Wall: *wall, Params: pm, ModelPerPath: *models > 0, ModelMax: *models, SpareCap: *spare, Trace: *trace, StopOnViol: *stopv, StubFuncs: stubs}
 	eng := gose.NewEngine(prog, cfg)
 	var fns []*ssa.Function
 	pkgOf := map[string]string{}
